@@ -101,6 +101,7 @@ type interpreter struct {
 	stdInitOK          map[string]bool
 	errorStringType    types.Type
 	lockMon            *lockMonitor
+	stubs              map[string]*ssa.Function // full function name -> harness stub
 	lenient            int // > 0 while formatting an error message (placeholders instead of symbolic formatting)
 	timeType           types.Type
 }
@@ -325,6 +326,9 @@ func visitInstr(fr *frame, instr ssa.Instruction) continuation {
 		*addr = zero(typeparams.MustDeref(instr.Type()))
 
 	case *ssa.MakeSlice:
+		if l, c := fr.i.concretizeIndex(fr.get(instr.Len), 1<<20), fr.i.concretizeIndex(fr.get(instr.Cap), 1<<20); l < 0 || c < l {
+			panic(targetPanic{rtErr("makeslice: len out of range")})
+		}
 		slice := make([]value, asInt64(fr.get(instr.Cap)))
 		tElt := instr.Type().Underlying().(*types.Slice).Elem()
 		for i := range slice {
@@ -548,6 +552,10 @@ func callSSA(i *interpreter, caller *frame, callpos token.Pos, fn *ssa.Function,
 	}
 	if fn.Parent() == nil {
 		name := fn.String()
+		if st := i.stubs[name]; st != nil && caller != nil && caller.fn != st {
+			// X-parse style contract stub supplied by the harness package (VxStub_<pkg>_<Func>)
+			return callSSA(i, caller, callpos, st, args, nil)
+		}
 		if ext := externals[name]; ext != nil {
 			return ext(fr, args)
 		}
